@@ -15,6 +15,7 @@ import (
 func init() {
 	vcScenarios["C06"] = vcScenC06
 	vcDirected["C06"] = []vcScenario{
+		vcRunC06HupWindow,
 		func(t *vcTrial) {
 			vcRunC06(t, vc06Cfg{Network: "tcp", Handler: "all", Chunks: 6, Mode: vcModePause, P: vpProcessAfterUnlock, Q: vpInputAckAfterBook, WriteOnPark: true})
 		},
@@ -489,4 +490,104 @@ func vcRunC06Client(t *vcTrial, racing bool) {
 	t.Stat("handler_invocations", int(atomic.LoadInt32(&inv)))
 	t.Nontrivial = true
 	t.Sig = fmt.Sprintf("client-setonrequest|racing=%v|peerclosed=%v|inv=%d", racing, peerClosesFirst, vcMinInt(int(atomic.LoadInt32(&inv)), 3))
+}
+
+// vcRunC06HupWindow: the last request and the FIN arrive while the handler task sits right before
+// its unlock; the poller's hang-up path finds the lock taken (so it cannot start a handler task for
+// the buffered request) and then tries the lock once more for the close callbacks - by then the
+// task has released it. Placed exactly with hook callbacks: whoever gets the lock, the request
+// must be offered to the handler before the close callbacks run.
+func vcRunC06HupWindow(t *vcTrial) {
+	t.P("variant", "hang-up between the task's unlock and its re-check")
+	var connID uintptr
+	var consumed uint64
+	seed := t.R.next()
+	so := vcSrvOpts{Network: "unix", NCloseCb: 1}
+	so.OnPrepare = func(rec *vcConnRec) { connID = rec.ID }
+	so.OnRequest = func(ctx context.Context, rec *vcConnRec) error {
+		c := rec.Conn
+		if n := c.Reader().Len(); n > 0 {
+			if p, err := c.Reader().Next(n); err == nil {
+				if i := vfCheck(p, seed, atomic.LoadUint64(&consumed)); i >= 0 {
+					t.Violate("C04", "wrong_bytes", "handler: byte %d differs", i)
+				}
+				atomic.AddUint64(&consumed, uint64(n))
+			}
+			c.Reader().Release()
+		}
+		return nil
+	}
+	srv, err := vcStartServer(so)
+	if err != nil {
+		t.Inconclusive("server start: %v", err)
+		return
+	}
+	defer srv.Stop(3 * time.Second)
+	cli, err := vcDialRaw(srv)
+	if err != nil {
+		t.Inconclusive("dial: %v", err)
+		return
+	}
+	defer cli.Close()
+	rec := srv.nextAccepted(3 * time.Second)
+	if rec == nil {
+		t.Inconclusive("accept not seen")
+		return
+	}
+	taskAtUnlock := make(chan struct{})
+	hupAtCloseCb := make(chan struct{})
+	taskUnlocked := make(chan struct{})
+	var s1, s2, s3 int32
+	vcPointCallback.Store(func(id int, obj uintptr, arg int) {
+		if obj != connID {
+			return
+		}
+		switch {
+		case id == vpProcessBeforeUnlock && atomic.CompareAndSwapInt32(&s1, 0, 1):
+			close(taskAtUnlock)
+			select {
+			case <-hupAtCloseCb:
+			case <-time.After(2 * time.Second):
+			}
+		case ((id == vpCloseCbEnter && arg&2 != 0) || id == vpOnHupBeforeCloseLock) && atomic.CompareAndSwapInt32(&s2, 0, 1):
+			// the hang-up path has found the lock taken and is about to try it for the close callbacks
+			close(hupAtCloseCb)
+			select {
+			case <-taskUnlocked:
+			case <-time.After(2 * time.Second):
+			}
+		case id == vpProcessAfterUnlock && atomic.CompareAndSwapInt32(&s3, 0, 1):
+			close(taskUnlocked)
+			time.Sleep(time.Millisecond) // the hang-up path takes the lock first
+		}
+	})
+	defer vcPointCallback.Store(func(id int, obj uintptr, arg int) {})
+	sent := uint64(0)
+	write := func(n int) {
+		b := make([]byte, n)
+		vfFill(b, seed, sent)
+		if m, _ := cli.Write(b); m > 0 {
+			sent += uint64(m)
+		}
+	}
+	write(100)
+	select {
+	case <-taskAtUnlock:
+	case <-time.After(3 * time.Second):
+		t.Inconclusive("the handler task did not reach its unlock")
+		return
+	}
+	write(200) // the last request ...
+	cli.Close() // ... and the FIN
+	if !rec.waitClosed(6 * time.Second) {
+		t.Inconclusive("close callbacks not seen (stages %d %d %d)", atomic.LoadInt32(&s1), atomic.LoadInt32(&s2), atomic.LoadInt32(&s3))
+		return
+	}
+	if got := atomic.LoadUint64(&consumed); got != sent {
+		t.Violate("C06", "input_dropped_at_close", "peer sent %d bytes and closed; the handler had consumed %d when the close callbacks ran: the hang-up path could not start a handler task (lock taken), then got the lock for the close callbacks right after the task's unlock and ran them over the buffered request (history tail %v)", sent, got, rec.history())
+		return
+	}
+	t.Nontrivial = atomic.LoadInt32(&s2) == 1 && atomic.LoadInt32(&s3) == 1
+	t.Stat("hup_window_trials_placed", int(atomic.LoadInt32(&s2)))
+	t.Sig = "hup-window"
 }
